@@ -321,6 +321,9 @@ class Run:
 
     # -- decision
     def finish(self):
+        if os.environ.get("VERIF_DEBUG"):
+            json.dump({"oracle": [(l, c, d, s_) for (l, c, d, s_) in self.oracle_failures[:3000]],
+                       "mismatch": self.mismatches[:3000]}, open(os.path.join(BUILD, f"debug_{self.pid}.json"), "w"), default=str)
         findings = [f for f in load_findings() if f.get("property") == self.pid and f.get("kind") == "known"]
         known_hit, new_fail = {}, []
         for (label, case, detail, sig) in self.oracle_failures:
